@@ -26,6 +26,10 @@ def result_signature(r, rvd_map=False, swap=False, drop_rvd_agg=False):
                     sig[f"{m}.{k}"] = None if v is None else ("nan" if v != v else round(float(v), 9))
     if r.get("rq") is not None:
         sig["rq"] = "nan" if r["rq"] != r["rq"] else round(float(r["rq"]), 12)
+    for k, v in sorted((r.get("globals") or {}).items()):
+        if k == "rvd" and (swap or rvd_map or drop_rvd_agg):
+            continue
+        sig[f"global.{k}"] = None if v is None else ("nan" if v != v else round(float(v), 9))
     return sig
 
 
